@@ -36,6 +36,11 @@ def mb_info(b, block_info=None):
 
 MB_FUNCS = {"double": mb_double, "plus_blocksum": mb_plus_blocksum, "reverse": mb_reverse, "info": mb_info}
 
+# ops whose optimizer paths are healthy on the unchanged tree; the long tail of optimizer crashes around
+# take/repeat/broadcast_to/reshape/roll/sliding windows is recorded once, by C01/C02, as known findings
+CORE_OPS = ["elem2", "elem1", "scalar", "T", "slice", "rechunk", "concat", "stack", "expand", "squeeze", "reduce", "cum",
+            "map_blocks", "flip", "where", "diff", "astype", "boolmask_reduce"]
+
 ELEM2 = ["add", "subtract", "multiply", "maximum", "minimum"]
 ELEM1 = ["negative", "abs", "square"]
 REDUCTIONS = ["sum", "max", "min", "prod", "any", "all", "mean", "argmax", "argmin", "count_nonzero"]
@@ -688,3 +693,32 @@ def all_nodes(prog, acc=None, seen=None):
     for q in subprograms(prog):
         all_nodes(q, acc, seen)
     return acc
+
+
+# --------------------------------------------------------------------------
+# corpus files: a program + its sources as a Python literal
+def dump_case(path, prog, sources, note=""):
+    import os
+    os.makedirs(os.path.dirname(path), exist_ok=True)
+    used = sorted({q[1] for q in all_nodes(prog) if q[0] == "src"})
+    with open(path, "w") as f:
+        f.write("# " + note.replace("\n", " ") + "\n")
+        f.write(repr({"prog": prog, "sources": {k: (sources[k][0].tolist(), str(sources[k][0].dtype), list(sources[k][0].shape), sources[k][1]) for k in used}}))
+
+
+def load_case(path):
+    txt = "".join(l for l in open(path) if not l.startswith("#"))
+    d = eval(txt, {"slice": slice, "None": None, "True": True, "False": False})
+    n = max(d["sources"]) + 1 if d["sources"] else 0
+    sources = [(np.zeros((1,), dtype="int64"), ((1,),))] * n
+    for k, (data, dt, shape, chunks) in d["sources"].items():
+        sources[k] = (np.array(data, dtype=dt).reshape(shape), chunks)
+    return d["prog"], sources
+
+
+def corpus_cases(pid):
+    import glob
+    import os
+    base = os.path.join(os.path.dirname(os.path.dirname(os.path.abspath(__file__))), "corpus", pid)
+    for p in sorted(glob.glob(os.path.join(base, "*.py"))):
+        yield os.path.basename(p)[:-3], *load_case(p)
